@@ -264,25 +264,34 @@ def rx_want(mo, groups):
     return '(Some (%d, [%s]))' % (mo.end(), '; '.join(gd))
 
 def _gen_pattern(rng, depth):
-    def atom(d):
+    """a pattern of the translated fragment.  The list-of-successes matcher computes EVERY way of
+    matching (Python stops at the first), so repetition is kept shallow: inside a quantified group
+    only '?' and '{2}' occur, and a pattern is at most 60 characters long."""
+    def atom(d, inrep):
         r = rng.random()
-        if r < .35 or d == 0:
+        if r < .4 or d == 0:
             return rng.choice(['a', 'b', '0', '1', '-', '\\.', 'Z', '\\d', '\\d', '[ab]', '[0-9]', '[^a]', '[a-b0]', '.', '[+-]', '[T ]', ':'])
-        if r < .6:
-            return '(' + alt(d - 1) + ')'
-        if r < .75:
-            return '(?:' + alt(d - 1) + ')'
-        return '(?P<g%d>' % rng.randrange(10 ** 6) + alt(d - 1) + ')'
-    def rep(d):
-        a = atom(d)
+        if r < .65:
+            return '(' + alt(d - 1, inrep) + ')'
+        if r < .8:
+            return '(?:' + alt(d - 1, inrep) + ')'
+        return '(?P<g%d>' % rng.randrange(10 ** 6) + alt(d - 1, inrep) + ')'
+    def rep(d, inrep):
         if rng.random() < .5:
-            return a
-        return a + rng.choice(['?', '*', '+', '{2}', '{1,2}', '{0,2}', '{2,}', '{1,3}', '?', '+', '{2,2}', '{4}'])
-    def seq(d):
-        return ''.join(rep(d) for _ in range(rng.randint(1, 4))) + rng.choice(['', '', '\\Z'])
-    def alt(d):
-        return '|'.join(seq(d) for _ in range(rng.choice([1, 1, 1, 2, 3])))
-    return alt(depth)
+            return atom(d, inrep)
+        if inrep:
+            return atom(d, True) + rng.choice(['?', '{2}', '?'])
+        q = rng.choice(['?', '*', '+', '{2}', '{1,2}', '{0,2}', '{2,}', '{1,3}', '?', '+', '{2,2}', '{4}'])
+        return atom(d, q not in ('?', '{2}', '{2,2}')) + q
+    def seq(d, inrep):
+        return ''.join(rep(d, inrep) for _ in range(rng.randint(1, 3))) + rng.choice(['', '', '\\Z'])
+    def alt(d, inrep):
+        return '|'.join(seq(d, inrep) for _ in range(rng.choice([1, 1, 1, 2, 3])))
+    for _ in range(50):
+        p = alt(depth, False)
+        if len(p) <= 60:
+            return p
+    return 'a'
 
 def _sample_match(rng, items):
     """a string the parsed sequence (re._parser items) can match, chosen at random: structured
@@ -321,6 +330,72 @@ def _sample_match(rng, items):
     return ''.join(out)
 
 
+class _TooMany(Exception):
+    pass
+
+def _los_ends(items, s, i, budget):
+    """end positions (with multiplicity) of every way the parsed sequence matches s from i: the size of
+    the list the Coq matcher computes.  Used only to keep pathological (exponential) cases out of the
+    generated stream; raises _TooMany past the budget."""
+    from re import _constants as C
+    ends = [i]
+    for op, av in items:
+        nxt = []
+        for j in ends:
+            if op in (C.LITERAL, C.NOT_LITERAL, C.ANY, C.IN):
+                if j < len(s) and re.match(_one(op, av), s[j]):
+                    nxt.append(j + 1)
+            elif op is C.AT:
+                if j == len(s):
+                    nxt.append(j)
+            elif op is C.SUBPATTERN:
+                nxt.extend(_los_ends(av[3], s, j, budget))
+            elif op is C.BRANCH:
+                for a in av[1]:
+                    nxt.extend(_los_ends(a, s, j, budget))
+            elif op is C.MAX_REPEAT:
+                lo, hi, sub = av
+                def rep(j, lo, hi, depth):
+                    out = []
+                    if hi != 0 and depth < 64:
+                        for k in _los_ends(sub, s, j, budget):
+                            if k > j or lo > 0:
+                                out.extend(rep(k, max(lo - 1, 0), hi if hi is C.MAXREPEAT else hi - 1, depth + 1))
+                    if lo == 0:
+                        out.append(j)
+                    budget[0] -= len(out)
+                    if budget[0] < 0:
+                        raise _TooMany()
+                    return out
+                nxt.extend(rep(j, lo, hi, 0))
+            budget[0] -= 1
+            if budget[0] < 0:
+                raise _TooMany()
+        ends = nxt
+    return ends
+
+def _one(op, av):
+    """a compiled one-character pattern for a single-character parse node"""
+    from re import _constants as C
+    if op is C.LITERAL:
+        return re.escape(chr(av))
+    if op is C.NOT_LITERAL:
+        return '[^%s]' % re.escape(chr(av))
+    if op is C.ANY:
+        return '.'
+    parts = []
+    for o, a in av:
+        if o is C.NEGATE:
+            parts.append('^')
+        elif o is C.LITERAL:
+            parts.append(re.escape(chr(a)))
+        elif o is C.RANGE:
+            parts.append('%s-%s' % (re.escape(chr(a[0])), re.escape(chr(a[1]))))
+        elif o is C.CATEGORY:
+            parts.append('\\d')
+    return '[' + ''.join(parts) + ']'
+
+
 def family_regex(check, tier):
     """(a) the generic matcher of C08/Regex.v against Python's re on generated patterns of the fragment
     and generated strings (this is the trusted part of the regex tie, sampled);
@@ -349,6 +424,8 @@ def family_regex(check, tier):
                 s = ''.join(rng.choice('ab01-.Z:+T ') for _ in range(rng.randint(0, 8)))
             else:
                 s = _sample_match(rng, tree)
+                if len(s) > 14:
+                    s = s[:rng.randint(0, 14)]
                 r = rng.random()
                 if r < .3:
                     s += ''.join(rng.choice('ab01-.Z:') for _ in range(rng.randint(1, 3)))
@@ -357,6 +434,10 @@ def family_regex(check, tier):
                     s = s[:j] + rng.choice('ab01-.Z:') + s[j + 1:]
                 elif r < .55 and s:
                     s = s[:rng.randrange(len(s))]
+            try:
+                _los_ends(tree, s, 0, [3000])
+            except _TooMany:
+                continue            # exponentially many ways of matching: not a case for an eager matcher
             mo = cp.match(s)
             nmatch += mo is not None
             cases.append(('(%s, %s, %s)' % (term, gtext(s), rx_want(mo, groups)),
